@@ -188,6 +188,10 @@ class ConcreteCtx:
     def option(self, name, value):
         pass
 
+    def claim_generalised(self, name, hyps, claim, subterms, keep_path=True):
+        if all(bool(h) for h in hyps):
+            self.claim(name, claim)
+
     def note(self, s):
         self.notes.append(s)
 
